@@ -610,8 +610,12 @@ package argmapper
 //@   ensures  planning == old(planning)
 //@   assigns  graph.Graph, Outer, Inner, HashM, VisitM, ItemM, []graph.Vertex, [][]graph.Vertex, []*graph.distQueueItem, *graph.distQueue, graph.distQueueItem, valueVertex.Value, typedArgVertex.Value, typedOutputVertex.Value, valueVertex, typedArgVertex, callState, NamedM, TypedM, ArgMap, map[interface{}]graph.Vertex, []*Value, Value, valueInternal, ErrArgumentUnsatisfied, Result, structValue, Func.onceResult, Func.execs, []interface{}, []error, []reflect.Value, multierror.Error, rvstore, rvfresh, nexec, failed, lastStruct, fin, frozen, cnt, reported, dvisited, kpos, spos
 //@   modifies forall(x, *valueVertex, true), forall(x, *typedArgVertex, true), forall(x, *typedOutputVertex, true), forall(x, *Func, true), state, state.NamedValue, state.TypedValue, state.InputSet
-//@   loop 6 invariant failed == nil && planning == old(planning)
-//@   loop 7 invariant failed == nil && planning == old(planning)
+//@   loop 6 invariant failed == nil
+//@   loop 6 invariant planning == old(planning)
+//@   loop 7 invariant failed == nil
+//@   loop 7 invariant planning == old(planning)
+//@   after "result := v.Func.callDirect(log, funcArgMap)" assert [converter-failure-visible] imp(failed != nil, result.buildErr == nil && len(result.out) > 0 && failed == errOf(result.out[len(result.out)-1]))
+//@   before "v.Func.outputValues(result, g.InEdges(v), state)" assert [no-failure-before-propagating-outputs] failed == nil
 
 // value(): the exported description of a vertex (a fresh Value)
 //@ extern (valueConverter).value :: (v any) *Value
